@@ -589,6 +589,52 @@ impl<T: EnumI64 + WithPrivateRange> vstd::std_specs::cmp::PartialOrdSpecImpl for
     open spec fn obeys_partial_cmp_spec() -> bool { true }
     open spec fn partial_cmp_spec(&self, other: &Self) -> Option<Ordering> { Some(label_cmp(regp_as_label(*self), regp_as_label(*other))) }
 }
+/// On well-formed labels (what decoding and the builders produce: a `PrivateUse` integer is never a
+/// registered value) the projection onto plain labels is injective ...
+pub proof fn lemma_regp_as_label_injective<T: EnumI64 + WithPrivateRange>()
+    ensures forall |x: RegisteredLabelWithPrivate<T>, y: RegisteredLabelWithPrivate<T>|
+        wf_regp(x) && wf_regp(y) && (#[trigger] regp_as_label(x) == #[trigger] regp_as_label(y)) ==> x == y
+{
+    T::lemma_enum_laws();
+    assert forall |x: RegisteredLabelWithPrivate<T>, y: RegisteredLabelWithPrivate<T>|
+        wf_regp(x) && wf_regp(y) && (#[trigger] regp_as_label(x) == #[trigger] regp_as_label(y)) implies x == y by {
+        match (x, y) {
+            (RegisteredLabelWithPrivate::Assigned(a), RegisteredLabelWithPrivate::Assigned(b)) => {
+                assert(T::spec_from_i64(a.spec_to_i64()) == Some(a));
+                assert(T::spec_from_i64(b.spec_to_i64()) == Some(b));
+            }
+            (RegisteredLabelWithPrivate::Assigned(a), RegisteredLabelWithPrivate::PrivateUse(i)) => {
+                assert(T::spec_from_i64(a.spec_to_i64()) == Some(a));
+            }
+            (RegisteredLabelWithPrivate::PrivateUse(i), RegisteredLabelWithPrivate::Assigned(b)) => {
+                assert(T::spec_from_i64(b.spec_to_i64()) == Some(b));
+            }
+            _ => {}
+        }
+    }
+}
+/// ... so the order the real `cmp` is verified against (`cmp_spec`, the plain-label order of the
+/// projection) is a total order consistent with equality on well-formed labels, and the projection
+/// has the same data-model value, hence the same deterministic encoding, as the label itself.
+pub proof fn lemma_regp_order_laws<T: EnumI64 + WithPrivateRange>()
+    ensures
+        forall |x: RegisteredLabelWithPrivate<T>, y: RegisteredLabelWithPrivate<T>| wf_regp(x) && wf_regp(y) ==>
+            ((x == y) == (#[trigger] vstd::std_specs::cmp::OrdSpec::cmp_spec(&x, &y) is Equal)),
+        forall |x: RegisteredLabelWithPrivate<T>, y: RegisteredLabelWithPrivate<T>|
+            (#[trigger] vstd::std_specs::cmp::OrdSpec::cmp_spec(&x, &y) is Less) == (vstd::std_specs::cmp::OrdSpec::cmp_spec(&y, &x) is Greater),
+        forall |x: RegisteredLabelWithPrivate<T>, y: RegisteredLabelWithPrivate<T>, z: RegisteredLabelWithPrivate<T>|
+            (#[trigger] vstd::std_specs::cmp::OrdSpec::cmp_spec(&x, &y) is Less && #[trigger] vstd::std_specs::cmp::OrdSpec::cmp_spec(&y, &z) is Less)
+                ==> vstd::std_specs::cmp::OrdSpec::cmp_spec(&x, &z) is Less,
+        forall |x: RegisteredLabelWithPrivate<T>, y: RegisteredLabelWithPrivate<T>, z: RegisteredLabelWithPrivate<T>|
+            (#[trigger] vstd::std_specs::cmp::OrdSpec::cmp_spec(&x, &y) is Greater && #[trigger] vstd::std_specs::cmp::OrdSpec::cmp_spec(&y, &z) is Greater)
+                ==> vstd::std_specs::cmp::OrdSpec::cmp_spec(&x, &z) is Greater,
+        forall |x: RegisteredLabelWithPrivate<T>| #[trigger] regp_cv(x) == label_cv(regp_as_label(x)),
+        forall |x: RegisteredLabelWithPrivate<T>, y: RegisteredLabelWithPrivate<T>|
+            #[trigger] vstd::std_specs::cmp::OrdSpec::cmp_spec(&x, &y) == label_cmp(regp_as_label(x), regp_as_label(y)),
+{
+    lemma_label_cmp_laws();
+    lemma_regp_as_label_injective::<T>();
+}
 »/// Manual implementation of [`Ord`] to ensure that CBOR canonical ordering is respected.
 impl<T: EnumI64 + WithPrivateRange> Ord for RegisteredLabelWithPrivate<T> {
     fn cmp(&self, other: &Self) -> Ordering {
